@@ -1,7 +1,8 @@
 (* Proofs for C09. *)
 From WI Require Import Lib.Base Model.State.
-From WI Require gen.Scan.
+From WI Require gen.Scan gen.SharedValues.
 From Coq Require Import Lia.
+From Coq Require String.
 
 Lemma globals_benign_now : globals_benign gen.Scan.globals = true.
 Proof. vm_compute. reflexivity. Qed.
@@ -111,7 +112,7 @@ Proof.
 Qed.
 
 (* results do not depend on what was inspected before *)
-Theorem history_independent : forall init hist rs, state_ok init = true ->
+Theorem curve_answers_independent : forall init hist rs, state_ok init = true ->
   snd (step (fold_left (fun s x => fst (step s x)) hist init) rs) = snd (step init rs).
 Proof.
   intros init hist rs Hs.
@@ -141,3 +142,223 @@ Proof.
   exists {| ce_name := []; ce_basex := {| backing := [1]; slen := 1 |}; ce_basey := [2] |}, [1; 2].
   vm_compute. discriminate.
 Qed.
+
+
+(* ================= the whole process state ================= *)
+
+Lemma shared_values_nil_now : shared_nil gen.SharedValues.shared_values = true.
+Proof. vm_compute. reflexivity. Qed.
+
+(* a slice without capacity: append never touches the shared array *)
+Lemma go_append_cap0 : forall s ys, gcap s = 0%nat -> gslice_ok s = true -> fst (go_append s ys) = s.
+Proof.
+  intros [b n] ys Hc Hok. unfold gcap, gslice_ok, gcap in *. cbn [backing slen] in *.
+  apply Nat.leb_le in Hok. destruct b; [|discriminate]. cbn in Hok. assert (n = 0%nat) by lia. subst n.
+  unfold go_append, gcap. cbn [backing slen length]. destruct ys as [|y ys]; cbn; reflexivity.
+Qed.
+
+Lemma s_eqb_eq : forall a b, String.eqb a b = true -> a = b.
+Proof. intros a b H. now apply String.eqb_eq. Qed.
+
+(* under a benign inventory no variable is writable *)
+Lemma writable_benign : forall gs, globals_benign gs = true -> forall g, writable gs g = false.
+Proof.
+  intros gs H g. unfold writable, globals_benign in *.
+  induction gs as [|[[n r] ws] gs IH]; [reflexivity|].
+  cbn [forallb existsb] in *. apply andb_true_iff in H as [H1 H2].
+  rewrite H1. cbn [negb]. rewrite andb_false_r. cbn [orb]. now apply IH.
+Qed.
+
+Lemma beqb_eq : forall a b, bytes_eqb a b = true -> a = b.
+Proof.
+  induction a as [|x a IH]; destruct b as [|y b]; cbn [bytes_eqb]; intros H; try discriminate; [reflexivity|].
+  apply andb_true_iff in H as [H1 H2]. apply N.eqb_eq in H1. subst. f_equal. now apply IH.
+Qed.
+
+Lemma lookup_shared_view : forall g l, lookup g (shared_view l) = option_map visible (lookup g l).
+Proof.
+  induction l as [|[k v] l IH]; [reflexivity|]. cbn [shared_view map lookup fst snd].
+  destruct (String.eqb g k); [reflexivity|]. exact IH.
+Qed.
+
+Lemma shared_view_store : forall g s s' l, lookup g l = Some s -> visible s' = visible s ->
+  shared_view (store g s' l) = shared_view l.
+Proof.
+  induction l as [|[k v] l IH]; intros Hl Hv; [discriminate|]. cbn [lookup store] in *.
+  destruct (String.eqb g k) eqn:E.
+  - inversion Hl; subst. apply s_eqb_eq in E. subst. cbn [shared_view map fst snd]. now rewrite Hv.
+  - cbn [shared_view map fst snd]. f_equal. now apply IH.
+Qed.
+
+Lemma shared_ok_lookup : forall g s l, forallb (fun e : string * gslice => gslice_ok (snd e)) l = true ->
+  lookup g l = Some s -> gslice_ok s = true.
+Proof.
+  induction l as [|[k v] l IH]; intros Hok Hl; [discriminate|]. cbn [lookup forallb snd] in *.
+  apply andb_true_iff in Hok as [H1 H2]. destruct (String.eqb g k); [now inversion Hl; subst|]. now apply IH.
+Qed.
+
+Lemma shared_ok_store : forall g s' l, forallb (fun e : string * gslice => gslice_ok (snd e)) l = true ->
+  gslice_ok s' = true -> forallb (fun e : string * gslice => gslice_ok (snd e)) (store g s' l) = true.
+Proof.
+  induction l as [|[k v] l IH]; intros Hok Hs; cbn [store forallb snd] in *; [now rewrite Hs|].
+  apply andb_true_iff in Hok as [H1 H2]. destruct (String.eqb g k); cbn [forallb snd]; [now rewrite Hs, H2|].
+  rewrite H1. now apply IH.
+Qed.
+
+(* the answer to a request is a function of what can be observed of the state *)
+Definition panswer_of (box : bytes) (v : list (string * bytes) * list (bytes * bytes * bytes) * list (string * bytes))
+  (r : prequest) : panswer :=
+  match v with
+  | (vars, curves, shared) =>
+      match r with
+      | RRead g => AValue (lookup g vars)
+      | RCurve q => AMatch (answer curves q)
+      | RSharedAppend g ys => AJoined (option_map (fun vis => vis ++ ys) (lookup g shared))
+      | RDes => ABox box
+      | RWrite _ _ => AValue None
+      end
+  end.
+
+Definition is_write (r : prequest) : bool := match r with RWrite _ _ => true | _ => false end.
+
+Lemma do_prequest_inv : forall box st r, pstate_ok box st = true -> is_write r = false ->
+  pview (fst (do_prequest box st r)) = pview st /\ pstate_ok box (fst (do_prequest box st r)) = true
+  /\ snd (do_prequest box st r) = panswer_of box (pview st) r.
+Proof.
+  intros box st r Hok Hw. unfold pstate_ok in Hok.
+  apply andb_true_iff in Hok as [Hok Hbox]. apply andb_true_iff in Hok as [Hc Hs].
+  destruct r as [g|q|g ys| |g v]; try discriminate; cbn [do_prequest].
+  - (* RRead *) cbn [fst snd]. split; [reflexivity|]. split; [|reflexivity].
+    unfold pstate_ok. now rewrite Hc, Hs, Hbox.
+  - (* RCurve *)
+    destruct (do_request_inv (ps_curves st) q Hc) as [Hv [Hk Ha]].
+    destruct (do_request (ps_curves st) q) as [c' o]. cbn [fst snd] in *.
+    split; [unfold pview; cbn [ps_vars ps_curves ps_shared]; now rewrite Hv|].
+    split; [unfold pstate_ok; cbn [ps_curves ps_shared ps_once ps_box]; now rewrite Hk, Hs, Hbox|].
+    unfold pview, panswer_of. now rewrite Ha.
+  - (* RSharedAppend *)
+    unfold pview at 3. unfold panswer_of. rewrite lookup_shared_view.
+    destruct (lookup g (ps_shared st)) as [s|] eqn:El; cbn [option_map].
+    + pose proof (shared_ok_lookup _ _ _ Hs El) as Hsok.
+      destruct (go_append_visible s ys Hsok) as [Hv [Hj Hk]].
+      destruct (go_append s ys) as [s' joined]. cbn [fst snd] in *.
+      split; [unfold pview; cbn [ps_vars ps_curves ps_shared]; now rewrite (shared_view_store _ _ _ _ El Hv)|].
+      split; [unfold pstate_ok; cbn [ps_curves ps_shared ps_once ps_box]; rewrite Hc, Hbox, (shared_ok_store _ _ _ Hs Hk); reflexivity|].
+      now rewrite Hj.
+    + cbn [fst snd]. split; [reflexivity|]. split; [|reflexivity]. unfold pstate_ok. now rewrite Hc, Hs, Hbox.
+  - (* RDes *)
+    destruct (ps_once st) eqn:Eo; cbn [fst snd].
+    + split; [reflexivity|]. split; [unfold pstate_ok; now rewrite Hc, Hs, Eo, Hbox|].
+      unfold panswer_of, pview. f_equal. now apply beqb_eq.
+    + split; [reflexivity|]. split; [|reflexivity].
+      unfold pstate_ok. cbn [ps_curves ps_shared ps_once ps_box]. rewrite Hc, Hs. cbn [andb].
+      clear. induction box as [|b box IH]; cbn [bytes_eqb]; [reflexivity|]. now rewrite N.eqb_refl, IH.
+Qed.
+
+(* a program that respects an inventory without writable variables: its description depends
+   only on what can be observed of the state, and it leaves that unchanged *)
+Lemma run_inv : forall box w, (forall g, w g = false) -> forall p st1 st2,
+  respects w p -> pstate_ok box st1 = true -> pstate_ok box st2 = true -> pview st1 = pview st2 ->
+  snd (run box p st1) = snd (run box p st2)
+  /\ pview (fst (run box p st1)) = pview st1 /\ pstate_ok box (fst (run box p st1)) = true.
+Proof.
+  intros box w Hw. induction p as [d|r k IH]; intros st1 st2 Hr H1 H2 Hv; cbn [run].
+  - cbn [fst snd]. auto.
+  - cbn [respects] in Hr. destruct Hr as [Hr Hk].
+    assert (is_write r = false) as Hnw.
+    { destruct r; try reflexivity. rewrite Hw in Hr. discriminate. }
+    destruct (do_prequest_inv box st1 r H1 Hnw) as [Hv1 [Hk1 Ha1]].
+    destruct (do_prequest_inv box st2 r H2 Hnw) as [Hv2 [Hk2 Ha2]].
+    destruct (do_prequest box st1 r) as [st1' a1]. destruct (do_prequest box st2 r) as [st2' a2].
+    cbn [fst snd] in *. assert (Ea : a2 = a1) by (rewrite Ha1, Ha2, Hv; reflexivity). rewrite Ea. clear Ea Ha2 a2.
+    destruct (IH a1 st1' st2' (Hk a1) Hk1 Hk2) as [Hd [Hvv Hok]]; [congruence|].
+    split; [exact Hd|]. split; [congruence|exact Hok].
+Qed.
+
+Lemma state_after_inv : forall gs box describe, globals_benign gs = true ->
+  (forall i, respects (writable gs) (describe i)) ->
+  forall h init, pstate_ok box init = true ->
+  pview (state_after box describe h init) = pview init /\ pstate_ok box (state_after box describe h init) = true.
+Proof.
+  intros gs box describe Hb Hr. pose proof (writable_benign gs Hb) as Hw.
+  induction h as [|x h IH]; intros init Hok; unfold state_after; cbn [fold_left]; [auto|].
+  destruct (run_inv box _ Hw (describe x) init init (Hr x) Hok Hok eq_refl) as [_ [Hv Hk]].
+  destruct (IH _ Hk) as [Hv2 Hk2]. unfold state_after in *. split; [congruence|exact Hk2].
+Qed.
+
+(* C09: for every history h and input x, the description of x after h is its description in
+   a fresh process *)
+Theorem history_independent : forall gs box describe init h x,
+  globals_benign gs = true -> pstate_ok box init = true ->
+  (forall i, respects (writable gs) (describe i)) ->
+  description box describe (state_after box describe h init) x = description box describe init x.
+Proof.
+  intros gs box describe init h x Hb Hok Hr.
+  destruct (state_after_inv gs box describe Hb Hr h init Hok) as [Hv Hk].
+  unfold description.
+  destruct (run_inv box _ (writable_benign gs Hb) (describe x) _ init (Hr x) Hk Hok Hv) as [Hd _]. exact Hd.
+Qed.
+
+(* non-vacuity of the hypotheses: a program that uses every benign kind of request respects the
+   inventory of the running code, and a state with the shared values as dumped is well-formed *)
+Definition sample_describe (x : bytes) : prog :=
+  Ask (RRead "internal/file.filetypes"%string) (fun _ =>
+  Ask (RCurve (0%nat, x)) (fun a =>
+  Ask (RSharedAppend "internal/file.UnknownPEMData"%string x) (fun _ =>
+  Ask RDes (fun b => Done (match a, b with AMatch (Some true), ABox t => 1 :: t | _, _ => [0] end))))).
+
+Definition sample_init : pstate :=
+  {| ps_vars := [("internal/file.filetypes"%string, [1; 2; 3])];
+     ps_curves := [{| ce_name := [80]; ce_basex := {| backing := [1; 2; 0; 0]; slen := 2 |}; ce_basey := [7; 8] |}];
+     ps_shared := map (fun r => match r with (n, _, (l, c)) => (n, {| backing := repeat 0 c; slen := l |}) end)
+                      gen.SharedValues.shared_values;
+     ps_once := false; ps_box := [] |}.
+
+Example hypotheses_satisfiable :
+  pstate_ok [9; 9] sample_init = true
+  /\ (forall i, respects (writable gen.Scan.globals) (sample_describe i))
+  /\ description [9; 9] sample_describe sample_init [1; 2; 7; 8] = [1; 9; 9]
+  /\ backing (ce_basex (hd {| ce_name := []; ce_basex := {| backing := []; slen := 0 |}; ce_basey := [] |}
+                (ps_curves (state_after [9; 9] sample_describe [[1; 2; 7; 8]] sample_init)))) = [1; 2; 7; 8].
+Proof.
+  split; [vm_compute; reflexivity|]. split; [|split; vm_compute; reflexivity].
+  intros i. cbn [sample_describe respects]. repeat (split; [exact I|intro]). exact I.
+Qed.
+
+(* the refutation: an inventory with ONE unclassified write site (the seeded "remember the row
+   that matched the previous input" shortcut) admits a program whose description of an input
+   claimed by two rows depends on what was inspected before *)
+Definition seeded_inventory : list (string * bool * list (string * string)) :=
+  [("internal/file.lastMatched"%string, false, [("internal/file:Inspect"%string, "assign"%string)])].
+Definition seeded_describe (x : bytes) : prog :=
+  if bytes_eqb x [1] then hinted_inspect [bs "JSON Web Token (JWT)"; bs "unknown ASN.1 data"]   (* a 123-byte token *)
+  else hinted_inspect [bs "unknown ASN.1 data"].                                                 (* a DER file *)
+Definition empty_state : pstate := {| ps_vars := []; ps_curves := []; ps_shared := []; ps_once := false; ps_box := [] |}.
+
+Example unclassified_write_breaks_it :
+  globals_benign seeded_inventory = false
+  /\ (forall i, respects (writable seeded_inventory) (seeded_describe i))
+  /\ pstate_ok [] empty_state = true
+  /\ description [] seeded_describe empty_state [1] = bs "JSON Web Token (JWT)"
+  /\ description [] seeded_describe (state_after [] seeded_describe [[2]] empty_state) [1] = bs "unknown ASN.1 data".
+Proof.
+  split; [vm_compute; reflexivity|]. split; [|repeat split; vm_compute; reflexivity].
+  intros i. unfold seeded_describe. destruct (bytes_eqb i [1]); cbn [hinted_inspect respects];
+    (split; [exact I|]; intros a; split; [vm_compute; reflexivity|]; intros; exact I).
+Qed.
+
+(* inventories of the four seeded changes are rejected by the classification *)
+(* a Write ON a package-level hash is a mutation although the data argument of a Write is not *)
+Example write_on_global_hash_rejected :
+  globals_benign [("m.vHash"%string, true, [("m:All"%string, "method:io.Writer.Write"%string)])] = false
+  /\ globals_benign [("m.vData"%string, true, [("m:All"%string, "arg:io.Writer.Write"%string)])] = true.
+Proof. split; vm_compute; reflexivity. Qed.
+
+Example seeded_inventories_rejected :
+  globals_benign [("internal/openpgp.checkedBindings"%string, false,
+      [("internal/openpgp:addUserID"%string, "method:sync.Map.Load"%string); ("internal/openpgp:addUserID"%string, "method:sync.Map.Store"%string)])] = false
+  /\ globals_benign [("internal/asn1struct.limits"%string, false, [("internal/asn1struct:*walker.parse"%string, "incdec"%string)])] = false
+  /\ globals_benign [("internal/util.lastDecoded"%string, true,
+      [("internal/util:recall"%string, "method:sync.Mutex.Lock"%string); ("internal/util:remember"%string, "assign"%string)])] = false
+  /\ globals_benign seeded_inventory = false.
+Proof. repeat split; vm_compute; reflexivity. Qed.
